@@ -396,7 +396,9 @@ ADDENDA = {
            "reading of the unit.",
     "C17": " Also: an executable model of affine_transform_mesh (polymorphic, run over the integers) with the theorem "
            "that every triangle keeps its orientation from every reference point under every non-singular transform "
-           "(affine_keeps_outward_orientation), tied to the real function.",
+           "(affine_keeps_outward_orientation), tied to the real function; the VTK writer as a token-level model whose "
+           "output is accepted by a Lean recogniser of the subset grammar Neuroglancer parses, for every mesh and attribute "
+           "list (vtk_export_is_accepted), tied byte for byte to the real writer's text.",
     "C18": " Also: the sharded writer's disk-backed buffers under failures (Buffers model): after ANY history of appends "
            "failing at open or after any number of bytes the buffer holds exactly the successful payloads and reports that "
            "length; a flush whose n-th deferred append fails loses no buffered chunk; kernel-checked counterexamples for the "
